@@ -35,9 +35,29 @@ func (c *Ctx) errorEdgeFatal(fi *load.FuncInfo, g *cfgx.Graph, call *ast.CallExp
 				callV := g.VertexOf(call)
 				for _, d := range defsOf(info, fi.Node(), astx.Obj(info, id)) {
 					if d == ast.Expr(call) || (d != nil && d.Pos() == call.Pos()) {
-						// the test must come after the call (the variable may be reused for earlier calls)
+						// the value assigned by this call must reach the test: either the call dominates the test, or every
+						// path from the call passes the test before the exit and before any other assignment of the variable
+						// (the variable may be reused for other calls, and the test may be shared by two branches)
 						if !g.DominatedBy(e.From, func(x *cfgx.Vertex) bool { return x.ID == callV }) {
-							continue
+							avoid := g.Reach(callV, func(v int) bool { return v == e.From }, nil)
+							bad := avoid[g.Exit]
+							ast.Inspect(fi.Node(), func(n ast.Node) bool {
+								as, ok := n.(*ast.AssignStmt)
+								if !ok {
+									return true
+								}
+								for _, l := range as.Lhs {
+									if lid, ok := l.(*ast.Ident); ok && astx.Obj(info, lid) == astx.Obj(info, id) {
+										if v2 := g.VertexOf(as); v2 >= 0 && v2 != callV && avoid[v2] {
+											bad = true
+										}
+									}
+								}
+								return true
+							})
+							if bad {
+								continue
+							}
 						}
 						reach := g.Reach(e.To, nil, nil)
 						if !reach[g.Exit] {
